@@ -75,6 +75,7 @@ func compactEngine() {
 				_ = os.Remove(dst)
 				rp := map[string]any{"options": o.String(), "opts": o, "ops": opLines(ops), "limit": limit, "mode": mode}
 				rep.Evaluations++
+				inFlight("compact", rp)
 				var cerr error
 				cliOut := ""
 				if mode == "lib" {
@@ -94,6 +95,7 @@ func compactEngine() {
 					out, err := exec.Command(cliPath(), "compact", "-o", dst, "--tx-max-size", fmt.Sprint(limit), src).CombinedOutput()
 					cerr, cliOut = err, string(out)
 				}
+				inFlight("compact", nil)
 				if cerr != nil {
 					rep.violation("C15", "monitor", "compact-fails:"+mode, fmt.Sprintf("Compact (limit %d, %s) fails: %v %s", limit, mode, cerr, truncate(cliOut, 120)), rp)
 					continue
